@@ -9,24 +9,32 @@
 #include "battery.hpp"
 #include "cases.hpp"
 #include "isolate.hpp"
+#include "readmap.hpp"
 
 using namespace nifly;
 using namespace vf;
 
 namespace {
 
-int childBody(const std::string& prefix) {
+// light = without the default save (its pruning of a partially loaded graph is quadratic in the
+// number of blocks and dominates the cost); the full body does everything the light one does.
+int childBody(const std::string& prefix, bool light = false) {
 	NifFile nif;
 	int rc = loadBytes(nif, prefix);
 	printf("load rc=%d valid=%d blocks=%u\n", rc, nif.IsValid(), nif.GetHeader().GetNumBlocks());
 	BatteryOpts bo;
 	bo.withPartitions = false; // these two queries index unvalidated tables (see DESIGN.md section 4)
 	std::string q = battery(nif, bo);
-	std::string out;
-	int src = saveBytes(nif, out, defOpts());
-	printf("save rc=%d bytes=%zu\n", src, out.size());
 	{
 		NifFile copy(nif);
+		std::string out;
+		int src = saveBytes(copy, out, rawOpts());
+		printf("raw save rc=%d bytes=%zu\n", src, out.size());
+	}
+	if (!light) {
+		std::string out;
+		int src = saveBytes(nif, out, defOpts());
+		printf("save rc=%d bytes=%zu\n", src, out.size());
 	}
 	nif.Clear();
 	return 0;
@@ -133,19 +141,35 @@ void deterministic(Run& run, const std::function<void(const std::vector<uint8_t>
 	// encoded as: [1, file, 0 (how=0 -> "anywhere"), cut as u32]
 	auto& cp = corpus(run.args.corpus);
 	const bool thorough = run.args.tier == "thorough";
-	auto emit = [&](size_t i, size_t cut) {
-		feed({1, static_cast<uint8_t>(i), 0, static_cast<uint8_t>(cut & 255), static_cast<uint8_t>((cut >> 8) & 255), static_cast<uint8_t>((cut >> 16) & 255), static_cast<uint8_t>(cut >> 24)});
+	auto tapeOf = [&](size_t i, size_t cut) {
+		return std::vector<uint8_t>{1, static_cast<uint8_t>(i), 0, static_cast<uint8_t>(cut & 255), static_cast<uint8_t>((cut >> 8) & 255), static_cast<uint8_t>((cut >> 16) & 255),
+									static_cast<uint8_t>(cut >> 24)};
 	};
+	uint64_t gidx = 0;
+	run.feedAll = true; // sharded here, by cut
 	for (size_t i = 0; i < cp.size(); i++) {
 		const std::string& b = cp[i].bytes;
 		Layout l = layoutOf(b);
 		std::set<size_t> cuts;
+		// (a) field-guided: the loader's own reads of the complete file (pass-through hook H1) give every
+		// field boundary; per read site (a place in some Sync()) the first occurrences and the last one are
+		// cut at the start of the field, one byte in and one byte before its end
+		{
+			ReadMap rm = readMapOf(b);
+			auto fc = fieldCuts(rm, thorough ? 6 : 2);
+			run.cls("field-guided-cuts", fc.size());
+			for (auto c : fc)
+				if (c < b.size())
+					cuts.insert(c);
+		}
+		const size_t nField = cuts.size();
+		// (b) structural
 		if (b.size() < 16 * 1024 && (thorough || b.size() < 4 * 1024)) {
 			for (size_t c = 0; c < b.size(); c++)
 				cuts.insert(c);
 		}
 		else {
-			// quick tier: the larger the file (and the costlier each child), the sparser the cuts
+			// quick tier: the larger the file (and the costlier each case), the sparser the cuts
 			const bool big = b.size() >= 32 * 1024;
 			size_t hdrStep = thorough ? 1 : big ? 31 : 7;
 			for (size_t c = 0; c <= l.headerEnd && c < b.size(); c += hdrStep)
@@ -167,9 +191,35 @@ void deterministic(Run& run, const std::function<void(const std::vector<uint8_t>
 			for (size_t c = l.headerEnd; c < b.size(); c += stride)
 				cuts.insert(c);
 		}
+		(void) nField;
+		std::vector<size_t> mine;
 		for (auto c : cuts)
-			emit(i, c);
+			if (static_cast<int>(gidx++ % static_cast<uint64_t>(run.args.nshards)) == run.args.shard)
+				mine.push_back(c);
+		// Run my cuts of this file in batches inside one forked child each; a case that does not complete
+		// is decided on its own by the ordinary isolated path (feed -> prop -> runCut).
+		const uint64_t fileHash = fnv1a(b);
+		size_t at = 0;
+		while (at < mine.size()) {
+			size_t n = std::min<size_t>(32, mine.size() - at);
+			// every fifth case with the default save as well
+			size_t firstBad = runBatchIsolated(n, [&](size_t k) { return childBody(b.substr(0, mine[at + k]), (at + k) % 5 != 0); }, 20);
+			for (size_t k = 0; k < firstBad && k < n; k++) {
+				run.evaluations++;
+				run.cls((at + k) % 5 != 0 ? "cut:enumerated(batched, load+query+copy+raw save)" : "cut:enumerated(batched, + default save)");
+				run.cls("kind:corpus");
+				if (mine[at + k] > 0)
+					run.nontriv(hash_mix(fileHash, mine[at + k]));
+			}
+			if (firstBad < n) {
+				feed(tapeOf(i, mine[at + firstBad]));
+				at += firstBad + 1;
+			}
+			else
+				at += n;
+		}
 	}
+	run.feedAll = false;
 }
 
 } // namespace
